@@ -102,6 +102,26 @@ def edMul (k : Nat) (P : EdPoint) : EdPoint :=
 
 def edMulBase (k : Nat) : EdPoint := edMul k edBase
 
+/-- Both coordinates reduced mod `p`. -/
+def edNorm (P : EdPoint) : EdPoint := ⟨P.x % edP, P.y % edP⟩
+
+/-- libsodium `crypto_scalarmult_ed25519_noclamp(k, P)` (behind `Ed25519Point.__mul__` for a point
+other than the generator, and behind the Monero sub-address step `C = a·D`).  `none` is where the
+library returns `-1` (bip_utils then raises `ValueError`):
+* `P` (coordinates reduced) is the identity;
+* `P` is not in the prime-order subgroup, `L·P ≠ (0, 1)` — this also refuses the seven small-order
+  points other than the identity: their order is 2, 4 or 8 and `L` is odd, so `L·T ≠ (0, 1)`
+  (checked point by point in `BipVerif.Model.MoneroLemmas.edMulNoclamp_small_order`);
+* the result `(k mod 2^255)·P` is the identity (in the subgroup: `k mod 2^255` a multiple of `L`).
+Base-point multiplication (`edMulBase`, libsodium `…_base_noclamp`) does not go through here. -/
+def edMulNoclamp (k : Nat) (P : EdPoint) : Option EdPoint :=
+  let Q := edNorm P
+  if Q = edIdentity then none
+  else if edMul edL Q ≠ edIdentity then none
+  else
+    let r := edMul (k % 2 ^ 255) Q
+    if r = edIdentity then none else some r
+
 /-! ### RFC 8032 §5.1.2 / §5.1.3 encoding -/
 
 /-- 32 bytes: little-endian low 255 bits of `y`, parity of `x` in bit 255.  Equals
